@@ -777,6 +777,18 @@ func (st *State) mapOrder(n int) []int {
 		return id
 	}
 	orders := iterOrders(n)
+	// bound on the product: the first two released ranges of a path take every order, the next four the insertion order
+	// or its reverse, later ones the insertion order
+	switch {
+	case st.mapOrders >= 6:
+		return id
+	case st.mapOrders >= 2:
+		rev := make([]int, n)
+		for i := range rev {
+			rev[i] = n - 1 - i
+		}
+		orders = [][]int{id, rev}
+	}
 	x := st.freshVar("map-iteration-order", BV(64))
 	st.assume(BVCmp("bvult", x, BVConstI(int64(len(orders)), 64)))
 	for c := range orders {
